@@ -440,10 +440,57 @@ func c14Texts() []c14msg {
 		c14msg{name: "text[addr-without-cport]", raw: bulkNodes(strings.ReplaceAll(c14Base(), "@17000", "")), valid: true},
 		c14msg{name: "text[hostname-addr]", raw: bulkNodes(c14Base() + "\n" + "h1 :7000@17000 slave aaa 0 0 1 connected"), valid: true},
 	)
+	// the order of the lines is arbitrary in CLUSTER NODES output (a replica may be listed before its master)
+	base := strings.Split(strings.Replace(c14Base(), "10923-16383", "10923-16000", 1), "\n")
+	rev := make([]string, len(base))
+	for i, l := range base {
+		rev[len(base)-1-i] = l
+	}
+	out = append(out,
+		c14msg{name: "text[lines-reversed]", raw: bulkNodes(strings.Join(rev, "\n")), valid: true},
+		c14msg{name: "text[replicas-first]", raw: bulkNodes(strings.Join(append(append([]string{}, base[3:]...), base[:3]...), "\n")), valid: true},
+		c14msg{name: "text[interleaved]", raw: bulkNodes(strings.Join([]string{base[4], base[0], base[5], base[1], base[3], base[2]}, "\n")), valid: true},
+	)
+	return out
+}
+
+// c14Perms: the base description under EVERY order of its six lines (each judged as a history of length 1)
+func c14Perms() []c14msg {
+	// (a slot boundary differs from the description adopted at boot, so every one of them is a change to adopt)
+	base := strings.Split(strings.Replace(strings.Replace(c14Base(), "0-5460", "0-5000", 1), "5461-10922", "5001-10922", 1), "\n")
+	var out []c14msg
+	var rec func(cur []int, used int)
+	rec = func(cur []int, used int) {
+		if len(cur) == len(base) {
+			ls := make([]string, len(cur))
+			for i, j := range cur {
+				ls[i] = base[j]
+			}
+			out = append(out, c14msg{name: fmt.Sprintf("perm%v", cur), raw: bulkNodes(strings.Join(ls, "\n")), valid: true})
+			return
+		}
+		for j := range base {
+			if used&(1<<j) == 0 {
+				rec(append(cur, j), used|1<<j)
+			}
+		}
+	}
+	rec(nil, 0)
 	return out
 }
 
 func c14Seq(tier string, shard, n int, deadline time.Time, res *Result) {
+	for i, t := range c14Perms() {
+		if i%n != shard {
+			continue
+		}
+		sig, msg, _ := c14Run([]int{0}, []c14msg{t})
+		res.Execs++
+		res.Transitions++
+		if sig != "" {
+			addFound(res, "texts", sig, msg, "text:"+t.name)
+		}
+	}
 	// generated single texts, as histories [text] and [base, text]
 	{
 		texts := c14Texts()
@@ -958,6 +1005,26 @@ func parseInts(s string) []int {
 func init() {
 	SeqReplay["C14"] = func(in string) (string, bool) {
 		alpha := c14Alphabet()
+		if strings.HasPrefix(in, "text:") {
+			// a generated single text: re-judged as the histories [text], [base,text], [text,base]
+			for _, t := range append(c14Texts(), c14Perms()...) {
+				if "text:"+t.name != in {
+					continue
+				}
+				out, bad := "", false
+				for _, h := range [][]c14msg{{t}, {alpha[0], t}, {t, alpha[0]}} {
+					idx := make([]int, len(h))
+					for k := range h {
+						idx[k] = k
+					}
+					sig, msg, state := c14Run(idx, h)
+					out += fmt.Sprintf("history %s\nrefresh state: %s\nverdict: %s %s\n", histNames(idx, h), state, sig, msg)
+					bad = bad || sig != ""
+				}
+				return out + fmt.Sprintf("text %q", t.raw), bad
+			}
+			return "unknown text " + in, false
+		}
 		h := parseInts(in)
 		sig, msg, state := c14Run(h, alpha)
 		return fmt.Sprintf("history %s\nrefresh state: %s\nverdict: %s %s", histNames(h, alpha), state, sig, msg), sig != ""
